@@ -348,11 +348,36 @@ func c14R3(c *Ctx) {
 		c.Unres("C14.R3", "tc.U32IPv4Src / tc.U32IPv6Src / datapath.dstIPRule", "not found")
 		return
 	}
+	// the fields of the redirect-rule record are known by what they become in the classifier key
+	// (TcU32Key{Mask: r.<mask>, Val: r.<value>, Off: r.<offset>}), not by their names
+	role := map[string]*types.Var{}
+	for _, fn := range p.FuncsInPkg("plugin/datapath") {
+		ast.Inspect(fn.Decl.Body, func(nd ast.Node) bool {
+			cl, ok := nd.(*ast.CompositeLit)
+			if !ok || !(typeIs(fn.Info().TypeOf(cl), "github.com/vishvananda/netlink", "TcU32Key") || typeIs(fn.Info().TypeOf(cl), "github.com/vishvananda/netlink/nl", "TcU32Key")) {
+				return true
+			}
+			for _, el := range cl.Elts {
+				if kv, ok := el.(*ast.KeyValueExpr); ok {
+					if sel, ok := ast.Unparen(kv.Value).(*ast.SelectorExpr); ok {
+						if fv, ok := fn.Info().ObjectOf(sel.Sel).(*types.Var); ok && fv.IsField() {
+							role[exprString(kv.Key)] = fv
+						}
+					}
+				}
+			}
+			return true
+		})
+	}
 	offOf := func(fn *FuncInfo, key string) []ast.Expr {
 		var out []ast.Expr
 		ast.Inspect(fn.Decl.Body, func(nd ast.Node) bool {
-			if kv, ok := nd.(*ast.KeyValueExpr); ok && exprString(kv.Key) == key {
-				out = append(out, kv.Value)
+			if kv, ok := nd.(*ast.KeyValueExpr); ok {
+				if exprString(kv.Key) == key {
+					out = append(out, kv.Value)
+				} else if id, isID := kv.Key.(*ast.Ident); isID && fn == dst && role[key] != nil && fn.Info().ObjectOf(id) == role[key] {
+					out = append(out, kv.Value)
+				}
 			}
 			return true
 		})
@@ -367,7 +392,7 @@ func c14R3(c *Ctx) {
 	}
 	c.Check(ok, "C14.R3", "IPv4 source key at offset 12", p.Pos(v4.Decl), v4.Key(), "Off: 12", fmt.Sprintf("%d Off fields", len(offs)))
 	// IPv4 destination (ipvlan redirect)
-	offs = offOf(dst, "offset")
+	offs = offOf(dst, "Off")
 	ok = len(offs) == 1
 	if ok {
 		v, isC := constInt(dst.Info(), derefExpr(dst, offs[0]))
@@ -378,9 +403,6 @@ func c14R3(c *Ctx) {
 	for _, fn := range []*FuncInfo{v4, dst} {
 		info := fn.Info()
 		maskKey, valKey := "Mask", "Val"
-		if fn == dst {
-			maskKey, valKey = "mask", "value"
-		}
 		pair := func(key string) string {
 			vs := offOf(fn, key)
 			if len(vs) != 1 {
